@@ -34,6 +34,9 @@ func implC03(line string) string {
 	f := strings.Fields(line)
 	switch f[0] {
 	case "expr":
+		if strings.HasPrefix(f[1], "ctx:") {
+			return parseCtxText(astx.UnHex(f[3][1:]))
+		}
 		return parseExprText(astx.UnHex(f[3][1:]))
 	case "asi":
 		return implAsi(f)
@@ -200,6 +203,7 @@ func genC03(c *h.Ctx) {
 	genAsi(c)
 	genAsiRe(c)
 	genNoIn(c)
+	genCtx(c)
 	genObj(c)
 	genPunct(c)
 }
